@@ -236,11 +236,25 @@ class World:
             return int(lab[1:]) if lab[0] == "s" and lab[1:].isdigit() else lab
         return "odd:" + msg[:60]
 
-    def group_id(self):
+    @staticmethod
+    def _group_var():
+        """the context variable holding the current task group - the one non-public read of the harness.  Found by type
+        (a ContextVar on TaskGroupContext or in its module), not by name, so that renaming it does not matter; None when
+        it cannot be found (the task-group component of the probes then degrades to the wildcard)"""
+        import contextvars
         try:
-            from haiway.context.tasks import TaskGroupContext
-            var = TaskGroupContext._context
+            import haiway.context.tasks as m
         except Exception:  # noqa: BLE001
+            return None
+        cands = []
+        for holder in (getattr(m, "TaskGroupContext", None), m):
+            if holder is not None:
+                cands += [v for v in vars(holder).values() if isinstance(v, contextvars.ContextVar)]
+        return cands[0] if cands else None
+
+    def group_id(self):
+        var = self._group_var()
+        if var is None:
             return ANY
         try:
             return self.groups.get(id(var.get()), "unknown-group")
@@ -271,8 +285,7 @@ class World:
 
     def _register_group(self, sid):
         try:
-            from haiway.context.tasks import TaskGroupContext
-            self.groups[id(TaskGroupContext._context.get())] = sid
+            self.groups[id(self._group_var().get())] = sid
         except Exception:  # noqa: BLE001
             pass
 
